@@ -271,15 +271,19 @@ def finish_case(case: dict, st: tuple, exc: BaseException | None) -> tuple:
                 f'{flow}-mappings-leave-the-placement',
                 f'{desc}: placement={pl} initial={init} final={final}',
             ))
-    # (3) multi-qudit operations on coupled qudits
+    # (3) every multi-qudit operation of the output (a block counts as one
+    # operation: routing a block only promises a connected span) acts on
+    # qudits that induce a connected subgraph of the machine
     lv = leaves(out)
-    for gate, loc, params, depth in lv:
-        if len(loc) >= 2 and not isinstance(gate, BarrierPlaceholder):
+    for op in out:
+        loc = tuple(op.location)
+        if len(loc) >= 2 and not isinstance(op.gate, BarrierPlaceholder):
             if not M.connected(loc, edges):
-                kind = 'swap' if isinstance(gate, SwapGate) else 'gate'
+                kind = 'swap' if isinstance(op.gate, SwapGate) else (
+                    'block' if isinstance(op.gate, CircuitGate) else 'gate')
                 fails.append((
                     f'{flow}-{kind}-on-uncoupled-qudits',
-                    f'{desc}: {gate.name} at {loc}',
+                    f'{desc}: {op.gate.name} at {loc}',
                 ))
                 break
     # (4) exact mapping oracle
@@ -318,6 +322,10 @@ def finish_case(case: dict, st: tuple, exc: BaseException | None) -> tuple:
     nswaps = sum(1 for g, *_ in lv if isinstance(g, SwapGate))
     if flow == 'sabre':
         fails += _walk(case, circ, lv, init, final, desc)
+    else:
+        f, applied = _pam_barriers(case, circ, out, m, init, desc)
+        fails += f
+        flags['pam_barrier_checks'] = applied
     flags['swaps'] = nswaps
     flags['nontrivial'] = int(
         nswaps > 0 or init != list(range(w)) or final != init,
@@ -408,6 +416,80 @@ def _walk(case: dict, circ: Circuit, lv: list, init: list, final: list,
             f'final_mapping={final}',
         )]
     return []
+
+
+def _pam_barriers(case: dict, circ: Circuit, out: Circuit, m: int,
+                  init: list, desc: str) -> tuple[list, int]:
+    """Barrier position in the PAM flow (blocks are re-synthesised and may
+    permute their qudits, so positions are recovered numerically): cut the
+    output at the barrier; the part before it must implement the input's
+    prefix with logical qudit l sitting on some physical qudit pos[l]; the
+    barrier must then cover exactly {pos[l] : l in the input barrier}.
+    Only applied when the input's prefix/suffix are exactly the barrier's
+    causal past/future, so that the cut is forced."""
+    import itertools
+    ops = case['ops']
+    w = case['w']
+    bars = [i for i, o in enumerate(ops) if o[0] == 'b']
+    outl = list(out)
+    obars = [i for i, op in enumerate(outl)
+             if isinstance(op.gate, BarrierPlaceholder)]
+    if not bars or len(bars) != len(obars):
+        return [], 0
+    # barriers must be totally ordered (each shares a qudit with the next)
+    for x, y in zip(bars, bars[1:]):
+        if not set(ops[x][1:]) & set(ops[y][1:]):
+            return [], 0
+    applied = 0
+    for bi, oi in zip(bars, obars):
+        S = set(ops[bi][1:])
+        # the list prefix/suffix must be the barrier's causal past/future
+        past = set(S)
+        good = True
+        for o in reversed(ops[:bi]):
+            if past & set(o[1:]):
+                past |= set(o[1:])
+            else:
+                good = False
+        fut = set(S)
+        for o in ops[bi + 1:]:
+            if fut & set(o[1:]):
+                fut |= set(o[1:])
+            else:
+                good = False
+        if not good or past != set(range(w)):
+            continue                 # cut not forced / position ambiguous
+        applied += 1
+        uprefix = M8.unitary_of(w, M8.flatten(M8.build(w, ops[:bi])))
+        a = Circuit(m)
+        for op in outl[:oi]:
+            a.append(op)
+        mats = [(np.asarray(g.get_unitary(p)), loc)
+                for g, loc, p, _ in leaves(a)
+                if not isinstance(g, BarrierPlaceholder)]
+        ua = M.unitary_of_ops(m, mats)
+        got = set(outl[oi].location)
+        found = []
+        for pos in itertools.permutations(range(m), w):
+            ind = M.induced(ua, m, init, list(pos))
+            if M.unitarity_defect(ind) < 1e-6 and \
+                    M.hs_cost(uprefix, ind) <= PAM_TOL:
+                found.append(pos)
+        if not found:
+            return [(
+                'pam-prefix-before-barrier-is-not-the-input-prefix',
+                f'{desc}: the operations before barrier #{applied} do not '
+                'implement the input operations before that barrier',
+            )], applied
+        want = [{p[l] for l in S} for p in found]
+        if got not in want:
+            return [(
+                'pam-barrier-misplaced',
+                f'{desc}: barrier on logical {sorted(S)} sits on physical '
+                f'{sorted(got)}, but those logical qudits are on '
+                f'{sorted(want[0])} at that point',
+            )], applied
+    return [], applied
 
 
 class JudgeBatch(BasePass):
